@@ -1,0 +1,92 @@
+//   Copyright 2025 affinitree developers
+//
+//   Licensed under the Apache License, Version 2.0 (the "License");
+//   you may not use this file except in compliance with the License.
+//   You may obtain a copy of the License at
+//
+//       http://www.apache.org/licenses/LICENSE-2.0
+//
+//   Unless required by applicable law or agreed to in writing, software
+//   distributed under the License is distributed on an "AS IS" BASIS,
+//   WITHOUT WARRANTIES OR CONDITIONS OF ANY KIND, either express or implied.
+//   See the License for the specific language governing permissions and
+//   limitations under the License.
+
+//! Verification seam for the LP backend (only compiled with ``--cfg affinitree_verif``).
+//!
+//! A thread-local interceptor can be installed that sees every call of
+//! [`Polytope::solve_linprog`] made on the current thread and decides its answer.
+//! The interceptor is handed a thunk that runs the real backend, so it can
+//! record, pass through, or perturb the genuine answer.
+//! Without an installed interceptor the backend is called directly and the
+//! behavior of the crate is unchanged.
+
+use std::cell::{Cell, RefCell};
+
+use ndarray::Array1;
+
+use crate::linalg::affine::Polytope;
+use crate::linalg::polyhedron::PolytopeStatus;
+
+/// Signature of an interceptor: ``(call index, polytope, objective, real backend) -> answer``.
+pub type LpInterceptor = Box<
+    dyn FnMut(usize, &Polytope, &Array1<f64>, &mut dyn FnMut() -> PolytopeStatus) -> PolytopeStatus,
+>;
+
+thread_local! {
+    static INTERCEPTOR: RefCell<Option<LpInterceptor>> = const { RefCell::new(None) };
+    static CALLS: Cell<usize> = const { Cell::new(0) };
+    static INSIDE: Cell<bool> = const { Cell::new(false) };
+}
+
+/// Installs ``interceptor`` for the current thread and returns the previously installed one.
+/// Passing ``None`` removes the interceptor.
+pub fn set_lp_interceptor(interceptor: Option<LpInterceptor>) -> Option<LpInterceptor> {
+    INTERCEPTOR.with(|cell| std::mem::replace(&mut *cell.borrow_mut(), interceptor))
+}
+
+/// Number of intercepted LP calls on the current thread since the last reset.
+pub fn lp_calls() -> usize {
+    CALLS.with(|c| c.get())
+}
+
+/// Resets the call counter of the current thread.
+pub fn reset_lp_calls() {
+    CALLS.with(|c| c.set(0));
+}
+
+struct InsideGuard;
+
+impl Drop for InsideGuard {
+    fn drop(&mut self) {
+        INSIDE.with(|f| f.set(false));
+    }
+}
+
+/// Called at the top of ``solve_linprog``. Returns ``None`` when the real backend should run.
+pub(crate) fn lp_intercept(poly: &Polytope, coeffs: &Array1<f64>) -> Option<PolytopeStatus> {
+    if INSIDE.with(|f| f.get()) {
+        return None;
+    }
+    let mut interceptor = INTERCEPTOR.with(|cell| cell.borrow_mut().take())?;
+
+    INSIDE.with(|f| f.set(true));
+    let guard = InsideGuard;
+    let index = CALLS.with(|c| {
+        let v = c.get();
+        c.set(v + 1);
+        v
+    });
+
+    let mut real = || poly.solve_linprog(coeffs.clone(), false);
+    let answer = interceptor(index, poly, coeffs, &mut real);
+
+    drop(guard);
+    INTERCEPTOR.with(|cell| {
+        let mut slot = cell.borrow_mut();
+        if slot.is_none() {
+            *slot = Some(interceptor);
+        }
+    });
+    Some(answer)
+}
